@@ -265,6 +265,11 @@ func driveCmdRace(ci int, c *Case, rnd *rand.Rand) []recEvent {
 		in := &recIn{}
 		if pending && kind == kHandler && !released && snap0 != nil && restores < 2 && rnd.Intn(5) == 0 {
 			restores++
+			// the handler has been entered: its invocation is logged by now, and belongs to the call
+			// that dispatched it (which may have returned before the handler's goroutine got to log it)
+			if calls := g.takeCalls(); len(calls) > 0 && dispatchIdx >= 0 && len(evs[dispatchIdx].Obs.Ccalls) == 0 {
+				evs[dispatchIdx].Obs.Ccalls = calls
+			}
 			var rerr error
 			panicked := !guarded(func() { rerr = h.dr.RestoreAt(snap0) })
 			ok := rerr == nil && !panicked
